@@ -26,7 +26,7 @@ ASSUMPTIONS = [
     'planet_sma is a documented alias of planet_distance and follows it; when both names are fitted the one later in fitting order determines the value',
     'bounds and values are positive (log modes are defined for them)',
 ]
-REQUIRED = {'recompile-after-change': 0.3, 'prior-mode-mismatch': 0.08, 'derived-toggled': 0.2, 'has-update': 0.3,
+REQUIRED = {'observation:derived-only': 0.15, 'recompile-after-change': 0.3, 'prior-mode-mismatch': 0.08, 'derived-toggled': 0.2, 'has-update': 0.3,
             'unknown-name': 0.1}
 # coverage-guided extra (thorough tier): pure-Python taurex modules on this property's path, instrumented by atheris
 FUZZ = {'include': ['taurex.optimizer.optimizer', 'taurex.core', 'taurex.data.fittable'], 'runs': 12000, 'workers': 4}
@@ -91,6 +91,7 @@ def _case(draw):
                 ops.append({'op': 'compile', 'p': 0})
     w = draw(S.world(layers=(2, 6), nwn=(2, 3), max_active=2, extras=('SimpleClouds',), temps=('iso',), mags=['mixed']))
     w['extras'] = ['SimpleClouds']
+    w['obs_kind'] = draw(st.sampled_from(['fit', 'derived-only', 'fit']))
     return {'world': w, 'ops': ops}
 
 
@@ -119,10 +120,17 @@ def make_world(w):
         @derivedparam(param_name='obs_double', param_latex='dbl', compute=False)
         def dbl(self):
             return 2 * self._offset
+
+    class DerivedOnlyObs(ArraySpectrum):
+        """an observation with nothing to fit but something to derive (the smallest legal parameter table: empty)"""
+        @derivedparam(param_name='obs_mean', param_latex='mean', compute=False)
+        def mean_flux(self):
+            return float(np.mean(self.spectrum))
     W = synth.build_world(w)
     m = synth.make_model(W, 'transmission')
     wl = 10000.0 / W.wn
-    obs = FitObs(np.array([wl, 1e-3 * np.ones(len(wl)), 1e-5 * np.ones(len(wl))]).T)
+    klass = DerivedOnlyObs if w.get('obs_kind') == 'derived-only' else FitObs
+    obs = klass(np.array([wl, 1e-3 * np.ones(len(wl)), 1e-5 * np.ones(len(wl))]).T)
     return W, m, obs
 
 
@@ -161,6 +169,7 @@ def check(case):
     from taurex.optimizer import Optimizer
     out = Outcome()
     w = case['world']
+    out.cls('observation:' + w.get('obs_kind', 'fit'))
     try:
         W, m, obs = cut(out, 'build', make_world, w)
         opt = cut(out, 'optimizer', Optimizer, 'verif', observed=obs, model=m)
